@@ -98,6 +98,12 @@ def rule_windowed_to_graph(chk: Check, model: Model, rid: str):
     so, si, tr = pick(e.get("seq_out", T.NONE), True), pick(e.get("seq_in", T.NONE), False), pick(e.get("ts_recv", T.NONE), True)
     ok = so is not None and so[2] == "seq" and mentions(so[1], "windows") and tr is not None and tr[2] == "ts_recv" and tr[1] == so[1]
     chk.add(rid, "WindowedGraph.to_graph Edge.seq_out/ts_recv", ok, "Edge.seq_out / ts_recv must be the window's seq / ts_recv", chk.loc(fi, es[0].node))
+    # every entry of the window becomes an edge (each message in a window is a dependency of the step): the window's columns are used whole,
+    # only reshaped
+    whole = so is not None and e.get("seq_out") == T.mk_call(("attr", so, "reshape"), list(e["seq_out"][2]) if e["seq_out"][0] == "call" else []) \
+        and tr is not None and e.get("ts_recv") == T.mk_call(("attr", tr, "reshape"), list(e["ts_recv"][2]) if e["ts_recv"][0] == "call" else [])
+    chk.add(rid, "WindowedGraph.to_graph: one edge per window entry", bool(whole), f"Edge.seq_out = {T.show(e.get('seq_out', T.NONE))[:160]}, expected the whole window column, reshaped "
+            "(dropping entries drops dependencies of the consuming step from the graph the schedule is computed from)", chk.loc(fi, es[0].node))
     ok = si is not None and si[2] == "seq" and not mentions(si[1], "windows") and mentions(e.get("seq_in"), "repeat")
     chk.add(rid, "WindowedGraph.to_graph Edge.seq_in", ok, "Edge.seq_in must be the receiving vertex's seq repeated over the window", chk.loc(fi, es[0].node))
 
